@@ -474,7 +474,8 @@ def typing_rules(ck, F, E):
     # Arrays.0 inserters pass the same name to create and to insert
     aw = E.writers_of_field("arrays::Arrays", "0")
     allowed = ("Arrays::create", "Arrays::maybe_create_default_array", "Arrays::set_value_at_index")
-    ck.require(bool(aw) and all(any(sfx(n, a) for a in allowed) for n in aw), "C16:TYPE:Arrays-writers", "suffix typing",
+    from lib import allowed_via_callers
+    ck.require(bool(aw) and all(allowed_via_callers(F, n, allowed + ("Arrays::get_value_at_index",)) for n in aw), "C16:TYPE:Arrays-writers", "suffix typing",
                "Arrays.0 is modified only in %s" % sorted(aw), "Arrays.0 is modified in %s" % sorted(aw))
     for fn in ("Arrays::create", "Arrays::maybe_create_default_array"):
         b = get_fn(ck, F, fn)
